@@ -23,6 +23,8 @@ struct Fixture {
     data: CircuitData<F, C, D>,
     plain_valid: Vec<serde_json::Value>,
     comp_valid: Vec<serde_json::Value>,
+    own_plain: Vec<u8>,
+    own_comp: Vec<u8>,
 }
 
 const SEED_PLAIN: &[u8] = include_bytes!("../corpus-seed/decode_proof/valid_plain");
@@ -78,7 +80,7 @@ fn fixture() -> &'static Fixture {
                 }
             }
         }
-        Fixture { data, plain_valid, comp_valid }
+        Fixture { data, plain_valid, comp_valid, own_plain: proof.to_bytes(), own_comp: comp.to_bytes() }
     })
 }
 
@@ -126,25 +128,43 @@ fuzz_target!(|data: &[u8]| {
         return;
     }
     let body = data[1..].to_vec();
+    // non-trivial: the decoder accepted the bytes and they are not one of the honest encodings
+    let honest = data == SEED_PLAIN || data == SEED_COMP || data[1..] == fx.own_plain[..] || data[1..] == fx.own_comp[..];
+    let key = (!honest).then(|| pv::fuzz_support::fnv(data));
+    let sample = || format!("len={} head={:02x?}", data.len(), &data[..data.len().min(12)]);
     if data[0] & 1 == 0 {
-        if let Ok(p) = ProofWithPublicInputs::<F, C, D>::from_bytes(body, &fx.data.common) {
-            if fx.data.verify(p.clone()).is_ok() {
-                let t = serde_json::to_value(&p).unwrap();
-                assert!(
-                    fx.plain_valid.iter().any(|v| pv::props::c18::tree_field_eq(&t, v)),
-                    "verify accepted a decoded value that differs from every honestly proved one: {}",
-                    first_diff(&t, &fx.plain_valid[0])
-                );
+        match ProofWithPublicInputs::<F, C, D>::from_bytes(body, &fx.data.common) {
+            Ok(p) => {
+                if fx.data.verify(p.clone()).is_ok() {
+                    pv::fuzz_support::record("plain:decoded,verify_ok", key, sample);
+                    let t = serde_json::to_value(&p).unwrap();
+                    assert!(
+                        fx.plain_valid.iter().any(|v| pv::props::c18::tree_field_eq(&t, v)),
+                        "verify accepted a decoded value that differs from every honestly proved one: {}",
+                        first_diff(&t, &fx.plain_valid[0])
+                    );
+                } else {
+                    pv::fuzz_support::record("plain:decoded,verify_err", key, sample);
+                }
             }
+            Err(_) => pv::fuzz_support::record("plain:decode_err", None, String::new),
         }
-    } else if let Ok(p) = CompressedProofWithPublicInputs::<F, C, D>::from_bytes(body, &fx.data.common) {
-        if fx.data.verify_compressed(p.clone()).is_ok() {
-            let t = strip_indices(serde_json::to_value(&p).unwrap());
-            assert!(
-                fx.comp_valid.iter().any(|v| pv::props::c18::tree_field_eq(&t, v)),
-                "verify_compressed accepted a decoded value that differs from every honestly proved one: {}",
-                first_diff(&t, &fx.comp_valid[0])
-            );
+    } else {
+        match CompressedProofWithPublicInputs::<F, C, D>::from_bytes(body, &fx.data.common) {
+            Ok(p) => {
+                if fx.data.verify_compressed(p.clone()).is_ok() {
+                    pv::fuzz_support::record("compressed:decoded,verify_ok", key, sample);
+                    let t = strip_indices(serde_json::to_value(&p).unwrap());
+                    assert!(
+                        fx.comp_valid.iter().any(|v| pv::props::c18::tree_field_eq(&t, v)),
+                        "verify_compressed accepted a decoded value that differs from every honestly proved one: {}",
+                        first_diff(&t, &fx.comp_valid[0])
+                    );
+                } else {
+                    pv::fuzz_support::record("compressed:decoded,verify_err", key, sample);
+                }
+            }
+            Err(_) => pv::fuzz_support::record("compressed:decode_err", None, String::new),
         }
     }
 });
